@@ -93,7 +93,9 @@ func Run(o Options) (*Result, error) {
 	if err != nil {
 		return nil, err
 	}
-	defer os.RemoveAll(dir)
+	if os.Getenv("VERIF_KEEP_TLC") == "" {
+		defer os.RemoveAll(dir)
+	}
 
 	ents, err := os.ReadDir(SpecDir)
 	if err != nil {
